@@ -4,6 +4,7 @@ import (
 	"bufio"
 	"fmt"
 	"io"
+	"os"
 	"os/exec"
 	"regexp"
 	"strconv"
@@ -47,6 +48,7 @@ type Solver struct {
 	Stats     SolverStats
 	LastError string
 	nq        int
+	busy      bool
 }
 
 // NewSolver starts a solver process. kind is "z3", "z3-new" or "cvc5".
@@ -142,7 +144,8 @@ func (sv *Solver) roundTrip(text string) ([]string, error) {
 // for every variable occurring in asserts.
 func (sv *Solver) Check(asserts []*Term) (Result, Model) {
 	t0 := time.Now()
-	defer func() { sv.Stats.Time += time.Since(t0) }()
+	sv.busy = true
+	defer func() { sv.Stats.Time += time.Since(t0); sv.busy = false }()
 	sv.Stats.Queries++
 	sv.nq++
 	if sv.nq > 20000 {
@@ -178,7 +181,13 @@ func (sv *Solver) Check(asserts []*Term) (Result, Model) {
 		sb.WriteString(")\n")
 	}
 	sb.WriteString("(check-sat)\n")
+	tq := time.Now()
 	lines, err := sv.roundTrip(sb.String())
+	if d := time.Since(tq); d > 2*time.Second {
+		if f := os.Getenv("VERIF_DUMP_SLOW"); f != "" {
+			os.WriteFile(fmt.Sprintf("%s.%d.smt2", f, sv.seq), []byte(sb.String()), 0o644)
+		}
+	}
 	res := Unknown
 	if err != nil {
 		sv.LastError = err.Error()
